@@ -1,100 +1,121 @@
 ------------------------------- MODULE Nucleo -------------------------------
 (***************************************************************************)
 (* The tick / worker / notify / restart protocol of the high-level matcher *)
-(* (src/lib.rs tick, tick_inner, restart; src/worker.rs run and helpers),  *)
-(* composed with abstract injector threads.  One action per critical       *)
-(* section or protocol step of the code -- the names in brackets are the   *)
-(* cfg(nucleo_verif) hook sites at which the real code reports the step:   *)
+(* (src/lib.rs tick, tick_inner, restart, drop; src/worker.rs run and its  *)
+(* helpers), composed with injector threads.  One action per critical      *)
+(* section or protocol step of the code; the names in brackets are the     *)
+(* cfg(nucleo_verif) hook sites / atomic operations at which the real code *)
+(* takes the step (NucleoConform.tla binds recorded executions to these    *)
+(* actions, NucleoMC.tla explores them exhaustively for small constants):  *)
 (*                                                                         *)
-(*   writers   Reserve(s)        inflight.fetch_add            [atomic]    *)
+(*   writers   Reserve(s, rows)  inflight.fetch_add            [atomic]    *)
 (*             Publish(s,i)      active.store(true, Release)   [atomic]    *)
-(*             WNotify(s,i)      (notify)()                    [notify]    *)
-(*   UI        Reparse(p)        MultiPattern::reparse                     *)
-(*             Restart(clear)                                  [restart]   *)
-(*             TickBegin         should_notify := false        [tick.begin]*)
-(*             TickCancel        canceled := true, status reset            *)
-(*             TickLock          lock acquired (blocking or try) [tick.lock / tick.try_lock]*)
+(*             WNotifySet(s,S)   (notify)() of push / extend   [notify]    *)
+(*   UI        ReparseWith(p,a)  MultiPattern::reparse         [call reparse]*)
+(*             Restart(clear)    canceled := true, new stream  [canceled.store in restart]*)
+(*             Drop              canceled := true              [canceled.store in drop]*)
+(*             TickBegin         should_notify := false        [should_notify.store]*)
+(*             TickCancel        canceled := true, status reset[canceled.store in tick]*)
+(*             TickLock          lock acquired                 [first event under the lock]*)
 (*             TickTryFail       try_lock timed out            [tick.try_lock_failed]*)
-(*             TickArm           should_notify := true         [tick.armed]*)
-(*             TickLocked        everything done under the lock [tick.locked, tick.snapshot_update, tick.spawn]*)
-(*   worker    RunBegin          flags, cleared reset, reset_matches [run.begin]*)
-(*             TScanStart/TScanItem   process_new_items_trivial            *)
-(*             RescoreOne(k)/RescoreDone  par_iter_mut rescoring [run.rescore_item]*)
-(*             RetryStep         in-flight retry                           *)
-(*             ScanItem(i)/ScanDone   parallel scan, any order  [run.scan_item]*)
-(*             SortStep          par_quicksort + truncate / was_canceled [run.sort_begin, run.sort_end]*)
-(*             NRead / Notify    the single read of the flag   [run.notify_check, notify]*)
-(*             RunEnd            lock released                 [run.end]   *)
+(*             TickArm           should_notify := true         [should_notify.store(true)]*)
+(*             TickLockedWith(c) everything done under the lock [tick.locked .. tick.spawn]*)
+(*   worker    RunBegin          flags, cleared reset          [run.begin] *)
+(*             ResetItem/ResetDone   reset_matches + remove_in_flight_matches, one active.load per item*)
+(*             TScanStart/TScanItem  process_new_items_trivial [inflight.load / active.load]*)
+(*             RescoreCheck/RescoreOne/RescorePh/RescoreDone  take_any_while + for_each [canceled.load, run.rescore_item]*)
+(*             RetryItem/RetryDone   in-flight retry           [active.load / inflight.load]*)
+(*             ScanItem(i)/ScanDone  parallel scan, any order  [active.load, canceled.load / par.scan end]*)
+(*             SortStepWith(c)   par_quicksort + truncate / was_canceled [run.sort_end]*)
+(*             NRead / Notify    the single read of the flag   [should_notify.load, notify]*)
+(*             RunEnd            lock released                 [after run.end]*)
 (*                                                                         *)
 (* The model describes the code AS IT IS after the fix: commits (in_flight *)
-(* kept sorted).  The recorded lost wake-up (known findings KF-C13-..) is a  *)
+(* kept sorted).  The recorded lost wake-up (known findings KF-C13-..) is a *)
 (* reachable violation of NoLostWakeup; its signature is carried by the    *)
 (* ghost `lateArm` so that TLC keeps exploring past it (NoOtherLostWakeup).*)
+(*                                                                         *)
+(* Item payloads are state: data[s][i] = [len, sc] is what the injector    *)
+(* wrote into entry i of stream s (total column length and the score of    *)
+(* the item under every pattern of Pats, None = no match).                 *)
 (***************************************************************************)
 EXTENDS Naturals, Sequences, FiniteSets, TLC, SequencesExt
 
-CONSTANTS N,            \* items per stream
+CONSTANTS N,            \* entries per stream
           MaxStreams,   \* restarts + 1
-          MaxTicks, MaxEdits,
-          SortInflight  \* TRUE: in_flight kept sorted (the repaired code); FALSE: as pinned (for demonstration)
+          SortInflight, \* TRUE: in_flight kept sorted (the repaired code); FALSE: as pinned (for demonstration)
+          Pats,         \* pattern ids; 0 is the empty pattern
+          Appendable    \* patterns to which text may be appended without changing the meaning of their last atom
 
-MAXI == 99              \* placeholder index (u32::MAX)
-None == 100
+MAXI == 99999           \* placeholder index (u32::MAX)
+None == 100000
 Items == 0..(N-1)
 Streams == 0..(MaxStreams-1)
-\* patterns: 0 empty, 1 = "a", 2 = "ab" (typed after 1: append), 3 = "c" (unrelated)
-Pats == {0, 1, 2, 3}
-AppendOf(p, q) == (p = 0) \/ (p = 1 /\ q = 2)
-ScoreT == << <<5, 5, None>>, <<None, 7, None>>, <<4, None, 4>> >>
-Score(p, it) == IF p = 0 THEN 0 ELSE ScoreT[p][(it % 3) + 1]
-LenT == <<2, 1, 1>>
-LenOf(it) == LenT[(it % 3) + 1]
-Less(a, b) == \* a, b = <<idx, score>>
-  IF a[2] # b[2] THEN a[2] > b[2]
-  ELSE IF a[1] = MAXI THEN FALSE ELSE IF b[1] = MAXI THEN TRUE
-  ELSE IF LenOf(a[1]) = LenOf(b[1]) THEN a[1] < b[1] ELSE LenOf(a[1]) < LenOf(b[1])
-SeqOfSet(S) == SetToSortSeq(S, <)
-FromScratch(p, S) ==
-  LET M == { it \in S : Score(p, it) # None } IN
-  [count |-> Cardinality(S),
-   matches |-> IF p = 0 THEN [k \in 1..Cardinality(M) |-> <<SeqOfSet(M)[k], 0>>]
-               ELSE SortSeq([k \in 1..Cardinality(M) |-> <<SeqOfSet(M)[k], Score(p, SeqOfSet(M)[k])>>], Less),
-   pat |-> p]
 
-VARIABLES resv, wst, pub,         \* per stream: reserved count, writer state per item (0 none,1 reserved,2 published,3 notified), published set
+VARIABLES resv, wst, pub, data,   \* per stream: reserved count, writer state per entry (0 none,1 reserved,2 published,3 notified), published set, payloads
           cur, pat, patStatus, state, snap, lock, canceled, shouldNotify,
           w, ui, wk,
           notifyPending, wake, promise, lateArm, lastRunning, ticks, edits, bad
-vars == <<resv, wst, pub, cur, pat, patStatus, state, snap, lock, canceled, shouldNotify, w, ui, wk,
+vars == <<resv, wst, pub, data, cur, pat, patStatus, state, snap, lock, canceled, shouldNotify, w, ui, wk,
           notifyPending, wake, promise, lateArm, lastRunning, ticks, edits, bad>>
 
-Init ==
-  /\ resv = [s \in Streams |-> 0] /\ wst = [s \in Streams |-> [it \in Items |-> 0]] /\ pub = [s \in Streams |-> {}]
+Score(s, p, it) == data[s][it].sc[p]
+LenOf(s, it) == data[s][it].len
+Less(s, a, b) == \* a, b = <<idx, score>> of stream s: the worker's comparison
+  IF a[2] # b[2] THEN a[2] > b[2]
+  ELSE IF a[1] = MAXI THEN FALSE ELSE IF b[1] = MAXI THEN TRUE
+  ELSE IF LenOf(s, a[1]) = LenOf(s, b[1]) THEN a[1] < b[1] ELSE LenOf(s, a[1]) < LenOf(s, b[1])
+SeqOfSet(S) == SetToSortSeq(S, <)
+FromScratch(s, p, S) ==
+  LET M == { it \in S : Score(s, p, it) # None } IN
+  [count |-> Cardinality(S),
+   matches |-> IF p = 0 THEN [k \in 1..Cardinality(M) |-> <<SeqOfSet(M)[k], 0>>]
+               ELSE SortSeq([k \in 1..Cardinality(M) |-> <<SeqOfSet(M)[k], Score(s, p, SeqOfSet(M)[k])>>], LAMBDA a, b : Less(s, a, b)),
+   pat |-> p]
+
+\* initial values (also used by the trace specification to start a new recorded run)
+resv0 == [s \in Streams |-> 0]
+wst0 == [s \in Streams |-> [it \in Items |-> 0]]
+pub0 == [s \in Streams |-> {}]
+snap0 == [count |-> 0, matches |-> <<>>, pat |-> 0, items |-> 0]
+w0 == [items |-> 0, last |-> 0, inflight |-> <<>>, matches |-> <<>>, pat |-> 0, running |-> FALSE, wasCanceled |-> FALSE]
+ui0 == [pc |-> "idle", c |-> FALSE, stt |-> "U", phase |-> 1, changed |-> FALSE]
+wk0 == [pc |-> "idle", status |-> "U", cleared |-> FALSE, end |-> 0, todo |-> {}, res |-> <<>>, unmatched |-> 0, rtodo |-> {},
+        ci |-> 1, off |-> 0, keep |-> <<>>, rok |-> 0]
+
+InitCore ==   \* everything but the payloads
+  /\ resv = resv0 /\ wst = wst0 /\ pub = pub0
   /\ cur = 0 /\ pat = 0 /\ patStatus = "U" /\ state = "Init"
-  /\ snap = [count |-> 0, matches |-> <<>>, pat |-> 0, items |-> 0]
+  /\ snap = snap0
   /\ lock = "free" /\ canceled = FALSE /\ shouldNotify = FALSE
-  /\ w = [items |-> 0, last |-> 0, inflight |-> <<>>, matches |-> <<>>, pat |-> 0, running |-> FALSE, wasCanceled |-> FALSE]
-  /\ ui = [pc |-> "idle", c |-> FALSE, stt |-> "U", phase |-> 1, changed |-> FALSE]
-  /\ wk = [pc |-> "idle", status |-> "U", cleared |-> FALSE, end |-> 0, todo |-> {}, res |-> <<>>, unmatched |-> 0, rtodo |-> {}]
+  /\ w = w0 /\ ui = ui0 /\ wk = wk0
   /\ notifyPending = FALSE /\ wake = TRUE /\ promise = FALSE /\ lateArm = FALSE /\ lastRunning = FALSE
   /\ ticks = 0 /\ edits = 0 /\ bad = "ok"
 
 \* ---------------- injector threads (any stream: old injectors keep working after a restart)
 WrUnch == UNCHANGED <<cur, pat, patStatus, state, snap, lock, canceled, shouldNotify, w, ui, wk, wake, promise, lateArm, lastRunning, ticks, edits, bad>>
-Reserve(s) == /\ s <= cur /\ resv[s] < N /\ wst[s][resv[s]] = 0
-              /\ wst' = [wst EXCEPT ![s][resv[s]] = 1] /\ resv' = [resv EXCEPT ![s] = @ + 1]
-              /\ UNCHANGED <<pub, notifyPending>> /\ WrUnch
+\* one fetch_add reserving Len(rows) consecutive entries; the payloads are written before publication
+Reserve(s, rows) ==
+  LET n == Len(rows)  b == resv[s] IN
+  /\ s <= cur /\ n >= 1 /\ b + n <= N /\ \A it \in b..(b + n - 1) : wst[s][it] = 0
+  /\ wst' = [wst EXCEPT ![s] = [it \in Items |-> IF it >= b /\ it < b + n THEN 1 ELSE @[it]]]
+  /\ data' = [data EXCEPT ![s] = [it \in Items |-> IF it >= b /\ it < b + n THEN rows[it - b + 1] ELSE @[it]]]
+  /\ resv' = [resv EXCEPT ![s] = b + n]
+  /\ UNCHANGED <<pub, notifyPending>> /\ WrUnch
 Publish(s, it) == /\ wst[s][it] = 1 /\ wst' = [wst EXCEPT ![s][it] = 2] /\ pub' = [pub EXCEPT ![s] = @ \cup {it}]
-                  /\ UNCHANGED <<resv, notifyPending>> /\ WrUnch
-WNotify(s, it) == /\ wst[s][it] = 2 /\ wst' = [wst EXCEPT ![s][it] = 3] /\ notifyPending' = TRUE
-                  /\ UNCHANGED <<resv, pub>> /\ WrUnch
+                  /\ UNCHANGED <<resv, data, notifyPending>> /\ WrUnch
+\* push notifies for its item, extend once for its whole batch
+WNotifySet(s, S) == /\ S # {} /\ \A it \in S : wst[s][it] = 2
+                    /\ wst' = [wst EXCEPT ![s] = [it \in Items |-> IF it \in S THEN 3 ELSE @[it]]]
+                    /\ notifyPending' = TRUE
+                    /\ UNCHANGED <<resv, pub, data>> /\ WrUnch
 
 \* ---------------- UI thread
-UiUnch == UNCHANGED <<resv, wst, pub>>
-Reparse(p) ==
-  /\ ui.pc = "idle" /\ edits < MaxEdits /\ p # pat
+UiUnch == UNCHANGED <<resv, wst, pub, data>>
+ReparseWith(p, app) ==
+  /\ ui.pc = "idle"
   /\ pat' = p /\ edits' = edits + 1 /\ wake' = TRUE
-  /\ patStatus' = IF AppendOf(pat, p) /\ patStatus # "R" THEN "P" ELSE "R"
+  /\ patStatus' = IF app /\ patStatus # "R" /\ pat \in Appendable THEN "P" ELSE "R"
   /\ UiUnch /\ UNCHANGED <<cur, state, snap, lock, canceled, shouldNotify, w, ui, wk, notifyPending, promise, lateArm, lastRunning, ticks, bad>>
 
 Restart(clear) ==
@@ -103,9 +124,13 @@ Restart(clear) ==
   /\ snap' = IF clear THEN [snap EXCEPT !.count = 0, !.matches = <<>>, !.items = cur + 1] ELSE snap
   /\ UiUnch /\ UNCHANGED <<pat, patStatus, lock, shouldNotify, w, ui, wk, notifyPending, promise, lateArm, lastRunning, ticks, edits, bad>>
 
-\* an event loop that ticks when notified, or right after its own edit / restart
+\* Nucleo::drop: cancel, then wait for the lock (the worker finishes its run on its own)
+Drop ==
+  /\ ui.pc = "idle" /\ canceled' = TRUE /\ ui' = [ui EXCEPT !.pc = "dropped"]
+  /\ UiUnch /\ UNCHANGED <<cur, pat, patStatus, state, snap, lock, shouldNotify, w, wk, notifyPending, wake, promise, lateArm, lastRunning, ticks, edits, bad>>
+
 TickBegin ==
-  /\ ui.pc = "idle" /\ ticks < MaxTicks /\ (notifyPending \/ wake)
+  /\ ui.pc = "idle"
   /\ ticks' = ticks + 1 /\ notifyPending' = FALSE /\ wake' = FALSE /\ promise' = FALSE /\ lateArm' = FALSE
   /\ shouldNotify' = FALSE
   /\ LET c == patStatus # "U" \/ state # "Fresh" IN
@@ -127,22 +152,26 @@ TickArm ==
   \* (or has even notified and is about to unlock) when the flag is re-armed
   /\ lateArm' = (wk.pc \in {"notify", "end", "idle"})
   /\ UiUnch /\ UNCHANGED <<cur, pat, patStatus, state, snap, lock, canceled, w, wk, notifyPending, wake, ticks, edits, bad>>
-TickLocked ==
+
+\* the decisions taken under the lock; cnt = the value items.count() returned (read only when not cancelling)
+TLCancelling == ui.phase = 1 /\ ui.c
+TLRunning(cnt) == TLCancelling \/ cnt > w.last - Len(w.inflight)
+TLDoSnap == w.running /\ ~w.wasCanceled /\ state = "Fresh"
+TLCleared == state # "Fresh"
+TickLockedWith(cnt) ==
   /\ ui.pc = "locked"
-  /\ LET cflag == ui.phase = 1 /\ ui.c
-         running == cflag \/ resv[cur] > w.last - Len(w.inflight)
-         doSnap == w.running /\ ~w.wasCanceled /\ state = "Fresh"
+  /\ LET cflag == TLCancelling
+         running == TLRunning(cnt)
          w1 == [w EXCEPT !.running = FALSE]
-         cleared == state # "Fresh"
+         cleared == TLCleared
      IN
-     /\ snap' = IF doSnap THEN [count |-> w.last - Len(w.inflight), matches |-> w.matches, pat |-> w.pat, items |-> w.items] ELSE snap
+     /\ snap' = IF TLDoSnap THEN [count |-> w.last - Len(w.inflight), matches |-> w.matches, pat |-> w.pat, items |-> w.items] ELSE snap
      /\ IF running
         THEN /\ w' = [w1 EXCEPT !.pat = pat, !.items = IF cleared THEN cur ELSE @]
              /\ canceled' = FALSE
              /\ shouldNotify' = IF ~cflag THEN TRUE ELSE shouldNotify
              /\ lock' = "w"
-             /\ wk' = [pc |-> "begin", status |-> IF ui.phase = 1 THEN ui.stt ELSE "U", cleared |-> cleared,
-                       end |-> 0, todo |-> {}, res |-> <<>>, unmatched |-> 0, rtodo |-> {}]
+             /\ wk' = [wk0 EXCEPT !.pc = "begin", !.status = IF ui.phase = 1 THEN ui.stt ELSE "U", !.cleared = cleared]
         ELSE /\ w' = w1 /\ lock' = "free" /\ UNCHANGED <<canceled, shouldNotify, wk>>
      /\ IF cflag
         THEN /\ ui' = [ui EXCEPT !.pc = "try", !.phase = 2, !.changed = w.running] /\ state' = "Fresh"
@@ -151,35 +180,43 @@ TickLocked ==
   /\ UiUnch /\ UNCHANGED <<cur, pat, patStatus, notifyPending, wake, lateArm, ticks, edits, bad>>
 
 \* ---------------- worker (runs over the stream w.items)
-WUnch == UNCHANGED <<resv, wst, pub, cur, pat, patStatus, state, snap, canceled, shouldNotify, ui, wake, promise, lateArm, lastRunning, ticks, edits>>
+WUnch == UNCHANGED <<resv, wst, pub, data, cur, pat, patStatus, state, snap, canceled, shouldNotify, ui, wake, promise, lateArm, lastRunning, ticks, edits>>
 WPub == pub[w.items]
 WRes == resv[w.items]
+WScore(it) == Score(w.items, w.pat, it)
 RemAt(q, k) == [j \in 1..(Len(q)-1) |-> IF j < k THEN q[j] ELSE q[j+1]]
-RECURSIVE RemInflight(_, _, _, _)
-\* remove_in_flight_matches: positional removal `i - off`; returns <<matches, newInflight, ok>>
-RemInflight(m, infl, off, keep) ==
-  IF infl = <<>> THEN <<m, keep, TRUE>>
-  ELSE LET it == Head(infl) IN
-    IF it \in WPub THEN RemInflight(m, Tail(infl), off, keep)
-    ELSE IF it - off + 1 > Len(m) \/ it < off THEN <<m, keep, FALSE>>
-    ELSE RemInflight(RemAt(m, it - off + 1), Tail(infl), off + 1, Append(keep, it))
-ResetM(ww) ==
-  LET base == [k \in 1..ww.last |-> <<k-1, 0>>]
-      rr == RemInflight(base, ww.inflight, 0, <<>>) IN
-  <<[ww EXCEPT !.matches = rr[1], !.inflight = rr[2]], rr[3]>>
+
+\* where the run goes once the match list is (re)built
+AfterReset(ww) == IF ww.pat = 0 THEN "tscan0" ELSE IF wk.status # "U" /\ ww.matches # <<>> THEN "tscan" ELSE "retry"
 
 RunBegin ==
   /\ wk.pc = "begin"
-  /\ LET w0 == [w EXCEPT !.running = TRUE, !.wasCanceled = FALSE]
-         w1 == IF wk.cleared THEN [w0 EXCEPT !.last = 0, !.inflight = <<>>, !.matches = <<>>] ELSE w0
-         needReset == w1.pat = 0 \/ wk.status = "R"
-         rs == IF needReset THEN ResetM(w1) ELSE <<w1, TRUE>>
-         w2 == rs[1]
-     IN /\ w' = w2
-        /\ bad' = IF rs[2] THEN bad ELSE "remove-panic"
-        /\ wk' = [wk EXCEPT !.pc = IF w2.pat = 0 THEN "tscan0"
-                                   ELSE IF wk.status # "U" /\ w2.matches # <<>> THEN "tscan" ELSE "retry"]
+  /\ LET wa == [w EXCEPT !.running = TRUE, !.wasCanceled = FALSE]
+         wb == IF wk.cleared THEN [wa EXCEPT !.last = 0, !.inflight = <<>>, !.matches = <<>>] ELSE wa
+         needReset == wb.pat = 0 \/ wk.status = "R"
+     IN IF needReset
+        THEN /\ w' = [wb EXCEPT !.matches = [k \in 1..wb.last |-> <<k-1, 0>>]]
+             /\ wk' = [wk EXCEPT !.pc = "reset", !.ci = 1, !.off = 0, !.keep = <<>>]
+        ELSE /\ w' = wb /\ wk' = [wk EXCEPT !.pc = AfterReset(wb), !.ci = 1, !.keep = <<>>]
+  /\ UNCHANGED bad /\ WUnch /\ UNCHANGED <<lock, notifyPending>>
+
+\* remove_in_flight_matches: one items.get(i) per in-flight index, positional removal `i - off`
+ResetItem ==
+  /\ wk.pc = "reset" /\ wk.ci <= Len(w.inflight)
+  /\ LET it == w.inflight[wk.ci] IN
+     IF it \in WPub
+     THEN /\ wk' = [wk EXCEPT !.ci = @ + 1] /\ UNCHANGED <<w, bad>>
+     ELSE IF it - wk.off + 1 > Len(w.matches) \/ it < wk.off
+     THEN /\ bad' = "remove-panic" /\ wk' = [wk EXCEPT !.ci = @ + 1, !.keep = Append(@, it)] /\ UNCHANGED w
+     ELSE /\ w' = [w EXCEPT !.matches = RemAt(@, it - wk.off + 1)]
+          /\ wk' = [wk EXCEPT !.ci = @ + 1, !.off = @ + 1, !.keep = Append(@, it)] /\ UNCHANGED bad
   /\ WUnch /\ UNCHANGED <<lock, notifyPending>>
+ResetDone ==
+  /\ wk.pc = "reset" /\ wk.ci > Len(w.inflight)
+  /\ w' = [w EXCEPT !.inflight = wk.keep]
+  /\ wk' = [wk EXCEPT !.pc = AfterReset(w), !.ci = 1, !.off = 0, !.keep = <<>>]
+  /\ UNCHANGED bad /\ WUnch /\ UNCHANGED <<lock, notifyPending>>
+
 TScanStart ==
   /\ wk.pc \in {"tscan0", "tscan"} /\ wk.todo = {} /\ wk.end = 0
   /\ IF WRes = w.last
@@ -199,31 +236,46 @@ TScanItem ==
                          !.pc = IF done THEN (IF wk.pc = "tscan0" THEN "nread" ELSE "rescore") ELSE @,
                          !.rtodo = IF done THEN 1..Len(w2.matches) ELSE @]
   /\ UNCHANGED bad /\ WUnch /\ UNCHANGED <<lock, notifyPending>>
+
+\* par_iter_mut().take_any_while(!canceled).for_each(..): a successful check admits one more element
+RescoreCheck ==
+  /\ wk.pc = "rescore" /\ ~canceled /\ wk.rok < Cardinality(wk.rtodo)
+  /\ wk' = [wk EXCEPT !.rok = @ + 1]
+  /\ UNCHANGED <<w, bad>> /\ WUnch /\ UNCHANGED <<lock, notifyPending>>
 RescoreOne(k) ==
-  /\ wk.pc = "rescore" /\ k \in wk.rtodo /\ ~canceled
+  /\ wk.pc = "rescore" /\ k \in wk.rtodo /\ wk.rok > 0 /\ w.matches[k][1] # MAXI
   /\ LET m == w.matches[k] IN
-     IF m[1] = MAXI THEN /\ wk' = [wk EXCEPT !.rtodo = @ \ {k}, !.unmatched = @ + 1] /\ UNCHANGED <<w, bad>>
-     ELSE /\ bad' = IF m[1] \in WPub THEN bad ELSE "deref-unpublished"
-          /\ IF Score(w.pat, m[1]) # None
-             THEN /\ w' = [w EXCEPT !.matches[k] = <<m[1], Score(w.pat, m[1])>>] /\ wk' = [wk EXCEPT !.rtodo = @ \ {k}]
-             ELSE /\ w' = [w EXCEPT !.matches[k] = <<MAXI, 0>>] /\ wk' = [wk EXCEPT !.rtodo = @ \ {k}, !.unmatched = @ + 1]
+     /\ bad' = IF m[1] \in WPub THEN bad ELSE "deref-unpublished"
+     /\ IF WScore(m[1]) # None
+        THEN /\ w' = [w EXCEPT !.matches[k] = <<m[1], WScore(m[1])>>] /\ wk' = [wk EXCEPT !.rtodo = @ \ {k}, !.rok = @ - 1]
+        ELSE /\ w' = [w EXCEPT !.matches[k] = <<MAXI, 0>>] /\ wk' = [wk EXCEPT !.rtodo = @ \ {k}, !.unmatched = @ + 1, !.rok = @ - 1]
   /\ WUnch /\ UNCHANGED <<lock, notifyPending>>
+\* placeholders are only counted (S: the placeholder positions admitted; they are indistinguishable)
+RescorePh(S) ==
+  /\ wk.pc = "rescore" /\ S # {} /\ S \subseteq wk.rtodo /\ Cardinality(S) <= wk.rok /\ \A k \in S : w.matches[k][1] = MAXI
+  /\ wk' = [wk EXCEPT !.rtodo = @ \ S, !.unmatched = @ + Cardinality(S), !.rok = @ - Cardinality(S)]
+  /\ UNCHANGED <<w, bad>> /\ WUnch /\ UNCHANGED <<lock, notifyPending>>
 RescoreDone ==
-  /\ wk.pc = "rescore" /\ (wk.rtodo = {} \/ canceled)
+  /\ wk.pc = "rescore" /\ (wk.rtodo = {} \/ canceled) /\ wk.rok = 0
   /\ wk' = [wk EXCEPT !.pc = "sort", !.rtodo = {}]
   /\ UNCHANGED <<w, bad>> /\ WUnch /\ UNCHANGED <<lock, notifyPending>>
-RECURSIVE Retry(_, _, _)
-Retry(infl, m, keep) ==
-  IF infl = <<>> THEN <<m, keep>>
-  ELSE LET it == Head(infl) IN
-    IF it \in WPub THEN Retry(Tail(infl), IF Score(w.pat, it) # None THEN Append(m, <<it, Score(w.pat, it)>>) ELSE m, keep)
-    ELSE Retry(Tail(infl), m, Append(keep, it))
-RetryStep ==
-  /\ wk.pc = "retry"
-  /\ LET rr == Retry(w.inflight, w.matches, <<>>) IN
-     /\ w' = [w EXCEPT !.matches = rr[1], !.inflight = rr[2]]
-     /\ IF WRes = w.last THEN wk' = [wk EXCEPT !.pc = "sort"]
-        ELSE wk' = [wk EXCEPT !.pc = "scan", !.end = WRes, !.todo = w.last..(WRes-1), !.res = [k \in 1..(WRes - w.last) |-> <<MAXI, 0>>]]
+
+\* process_new_items: in_flight.retain(..), one items.get(idx) per in-flight index
+RetryItem ==
+  /\ wk.pc = "retry" /\ wk.ci <= Len(w.inflight)
+  /\ LET it == w.inflight[wk.ci] IN
+     IF it \in WPub
+     THEN /\ w' = IF WScore(it) # None THEN [w EXCEPT !.matches = Append(@, <<it, WScore(it)>>)] ELSE w
+          /\ wk' = [wk EXCEPT !.ci = @ + 1]
+     ELSE /\ wk' = [wk EXCEPT !.ci = @ + 1, !.keep = Append(@, it)] /\ UNCHANGED w
+  /\ UNCHANGED bad /\ WUnch /\ UNCHANGED <<lock, notifyPending>>
+\* ... followed by par_snapshot(last_snapshot): the count is read once
+RetryDone ==
+  /\ wk.pc = "retry" /\ wk.ci > Len(w.inflight)
+  /\ w' = [w EXCEPT !.inflight = wk.keep]
+  /\ IF WRes = w.last THEN wk' = [wk EXCEPT !.pc = "sort", !.ci = 1, !.keep = <<>>]
+     ELSE wk' = [wk EXCEPT !.pc = "scan", !.ci = 1, !.keep = <<>>, !.end = WRes, !.todo = w.last..(WRes-1),
+                           !.res = [k \in 1..(WRes - w.last) |-> <<MAXI, 0>>]]
   /\ UNCHANGED bad /\ WUnch /\ UNCHANGED <<lock, notifyPending>>
 ScanItem(it) ==   \* any unscanned item, on any pool thread
   /\ wk.pc = "scan" /\ it \in wk.todo
@@ -233,8 +285,8 @@ ScanItem(it) ==   \* any unscanned item, on any pool thread
           /\ wk' = [wk EXCEPT !.todo = @ \ {it}, !.unmatched = @ + 1]
      ELSE IF canceled
      THEN /\ wk' = [wk EXCEPT !.todo = @ \ {it}, !.res[k] = <<it, 0>>] /\ UNCHANGED w
-     ELSE IF Score(w.pat, it) # None
-     THEN /\ wk' = [wk EXCEPT !.todo = @ \ {it}, !.res[k] = <<it, Score(w.pat, it)>>] /\ UNCHANGED w
+     ELSE IF WScore(it) # None
+     THEN /\ wk' = [wk EXCEPT !.todo = @ \ {it}, !.res[k] = <<it, WScore(it)>>] /\ UNCHANGED w
      ELSE /\ wk' = [wk EXCEPT !.todo = @ \ {it}, !.unmatched = @ + 1] /\ UNCHANGED w
   /\ UNCHANGED bad /\ WUnch /\ UNCHANGED <<lock, notifyPending>>
 ScanDone ==
@@ -243,11 +295,12 @@ ScanDone ==
                     !.inflight = IF SortInflight THEN SortSeq(@, <) ELSE @]
   /\ wk' = [wk EXCEPT !.pc = "sort", !.res = <<>>, !.end = 0]
   /\ UNCHANGED bad /\ WUnch /\ UNCHANGED <<lock, notifyPending>>
-SortStep ==
-  /\ wk.pc = "sort"
-  /\ IF canceled
+\* c = what par_quicksort returns: TRUE iff it saw the cancel flag raised
+SortStepWith(c) ==
+  /\ wk.pc = "sort" /\ (c => canceled)
+  /\ IF c
      THEN /\ w' = [w EXCEPT !.wasCanceled = TRUE] /\ wk' = [wk EXCEPT !.pc = "end"] /\ UNCHANGED bad
-     ELSE LET srt == SortSeq(w.matches, Less)
+     ELSE LET srt == SortSeq(w.matches, LAMBDA a, b : Less(w.items, a, b))
               real == { srt[k][1] : k \in 1..Len(srt) } \ {MAXI} IN
           /\ bad' = IF Len(srt) >= 2 /\ ~(real \subseteq WPub) THEN "deref-unpublished" ELSE bad
           /\ w' = [w EXCEPT !.matches = SubSeq(srt, 1, Len(srt) - wk.unmatched)]
@@ -263,22 +316,21 @@ Notify ==
 RunEnd ==
   /\ wk.pc = "end" /\ lock' = "free" /\ wk' = [wk EXCEPT !.pc = "idle", !.unmatched = 0]
   /\ UNCHANGED <<w, bad, notifyPending>> /\ WUnch
-
-Next == (\E s \in Streams : Reserve(s) \/ \E it \in Items : Publish(s, it) \/ WNotify(s, it))
-        \/ (\E p \in Pats : Reparse(p)) \/ (\E c \in BOOLEAN : Restart(c))
-        \/ TickBegin \/ TickCancel \/ TickLock \/ TickTryFail \/ TickArm \/ TickLocked
-        \/ RunBegin \/ TScanStart \/ TScanItem \/ (\E k \in 1..N : RescoreOne(k)) \/ RescoreDone
-        \/ RetryStep \/ (\E it \in Items : ScanItem(it)) \/ ScanDone \/ SortStep \/ NRead \/ Notify \/ RunEnd
-Spec == Init /\ [][Next]_vars
+\* RunEnd \cdot TickLock written out (the unlock itself is not observable; it certainly precedes the next acquisition)
+RunEndThenTickLock ==
+  /\ wk.pc = "end" /\ lock = "w" /\ ui.pc \in {"lockwait", "try"}
+  /\ lock' = "ui" /\ wk' = [wk EXCEPT !.pc = "idle", !.unmatched = 0] /\ ui' = [ui EXCEPT !.pc = "locked"]
+  /\ UNCHANGED <<resv, wst, pub, data, cur, pat, patStatus, state, snap, canceled, shouldNotify, w,
+                 notifyPending, wake, promise, lateArm, lastRunning, ticks, edits, bad>>
 
 \* ---------------- properties
 \* C06
 NoBadDeref == bad = "ok"
 SnapshotSafe == \A k \in 1..Len(snap.matches) : snap.matches[k][1] \in pub[snap.items]
 SnapshotNoDup == \A k, l \in 1..Len(snap.matches) : k # l => snap.matches[k][1] # snap.matches[l][1]
-SnapshotScores == \A k \in 1..Len(snap.matches) : snap.matches[k][2] = Score(snap.pat, snap.matches[k][1])
+SnapshotScores == \A k \in 1..Len(snap.matches) : snap.matches[k][1] \in Items /\ snap.matches[k][2] = Score(snap.items, snap.pat, snap.matches[k][1])
 SnapshotOrder == \A k \in 1..Len(snap.matches) - 1 :
-                    IF snap.pat = 0 THEN snap.matches[k][1] < snap.matches[k+1][1] ELSE Less(snap.matches[k], snap.matches[k+1])
+                    IF snap.pat = 0 THEN snap.matches[k][1] < snap.matches[k+1][1] ELSE Less(snap.items, snap.matches[k], snap.matches[k+1])
 SnapshotCount == Len(snap.matches) <= snap.count /\ snap.count <= resv[snap.items]
 \* C12
 RestartIsolation == snap.items <= cur /\ w.items <= cur
@@ -287,6 +339,6 @@ WritersQuiet == \A s \in Streams : \A it \in Items : wst[s][it] \in {0, 3}
 Quiescent == ui.pc = "idle" /\ wk.pc = "idle" /\ WritersQuiet /\ ~notifyPending /\ ~wake
 NoLostWakeup == ~(Quiescent /\ promise)
 NoOtherLostWakeup == ~(Quiescent /\ promise /\ ~lateArm)       \* anything but the recorded signature
-Converged == (Quiescent /\ ~lastRunning /\ ticks > 0) => (snap.items = cur /\ [count |-> snap.count, matches |-> snap.matches, pat |-> snap.pat] = FromScratch(pat, pub[cur]))
+Converged == (Quiescent /\ ~lastRunning /\ ticks > 0) => (snap.items = cur /\ [count |-> snap.count, matches |-> snap.matches, pat |-> snap.pat] = FromScratch(cur, pat, pub[cur]))
 RunningFalseMeansCaughtUp == (ui.pc = "idle" /\ ~lastRunning /\ ticks > 0 /\ wk.pc = "idle" /\ ~wake) => snap.pat = pat
 =============================================================================
